@@ -277,6 +277,13 @@ def inject_kani_modules(scratch_repo, files):
     return injected, None
 
 
+def harness_path(h):
+    """fully qualified harness name: module path of the source file + verif_kani + fn name"""
+    rel = h['file'][len('src/'):-len('.rs')]
+    parts = [x for x in rel.split('/') if x not in ('lib', 'main', 'mod')]
+    return '::'.join(parts + ['verif_kani', h['name']])
+
+
 def kani_run(scratch_repo, harnesses, jobs, timeout_total, per_harness_timeout, extra_flags=()):
     """Run cargo kani for the given harness names (exact pretty names are matched by substring filter)."""
     out_json = os.path.join(os.path.dirname(scratch_repo), f'kani-{int(time.time() * 1000)}.json')
@@ -284,6 +291,7 @@ def kani_run(scratch_repo, harnesses, jobs, timeout_total, per_harness_timeout, 
                                                     '--harness-timeout', f'{per_harness_timeout}s',
                                                     '--export-json', out_json]
     cmd += list(extra_flags)
+    cmd.append('--exact')
     for h in harnesses:
         cmd += ['--harness', h]
     rc, out, err, wall = run(['timeout', '-k', '10', str(timeout_total)] + cmd, cwd=scratch_repo)
@@ -343,7 +351,7 @@ def classify_kani(data, stdout, wanted):
             undec.append(dict(description='no checks reported', reason=json.dumps(e)[:300]))
         # if the harness failed only because of undetermined checks after an unwinding failure, Kani marks
         # other checks UNDETERMINED: they are in undec already.
-        st_solver = stats.get(hid, {}).get('cbmc_stats', {})
+        st_solver = (stats.get(hid) or {}).get('cbmc_stats') or {}
         res[short] = dict(harness_id=hid, status=('refuted' if failed else ('undecided' if undec else 'discharged')),
                           checks_total=total, checks_ok=ok, failed=failed, undecided=undec,
                           covers_total=covers_total, covers_satisfied=covers_sat,
@@ -432,6 +440,53 @@ def native_replay(rel, harness, values, bin_crate, timeout=900):
 
 # ---------------------------------------------------------------------------
 
+# ---------------------------------------------------------------------------
+# native bounded stand-ins (labelled bounded, never counted as proved): #[cfg(test)] modules from
+# contracts/native/<path> appended to the scratch copy and run with the repo's own toolchain
+
+def inject_native_modules(scratch_repo, files):
+    for rel in sorted(files):
+        src = os.path.join(ROOT, 'contracts', 'native', rel)
+        dst = os.path.join(scratch_repo, rel)
+        if not os.path.exists(dst):
+            return f'target file {rel} no longer exists in /repo'
+        with open(dst, 'a') as f:
+            f.write('\n\n// ==== appended by /verif/check (scratch copy only, native bounded stand-ins) ====\n')
+            f.write(open(src).read())
+    return None
+
+
+def native_run(scratch_repo, tests, timeout):
+    """tests: registry.NATIVE entries. Returns {name: dict(status, message, cases, time_s)}."""
+    out = {}
+    env = dict(ENV)
+    env['RUST_BACKTRACE'] = '0'
+    for is_bin in (False, True):
+        sel = [t for t in tests if bool(t.get('bin')) == is_bin]
+        if not sel:
+            continue
+        cmd = ['cargo', 'test', '--offline', '--release'] + (['--bin', 'hdwallet'] if is_bin else ['--lib']) + \
+              ['verif_native', '--', '--test-threads', str(NPROC), '--show-output']
+        rc, so, se, wall = run(['timeout', '-k', '10', str(timeout)] + cmd, cwd=scratch_repo, env=env)
+        for t in sel:
+            m = re.search(r'^test (\S*verif_native::' + re.escape(t['name']) + r') \.\.\. (\w+)', so, flags=re.M)
+            if not m:
+                out[t['name']] = dict(status='undecided', message='native test did not run (rc=%s): %s' % (rc, (se[-1500:] + so[-500:])), cases=0, time_s=wall, cmd=' '.join(cmd))
+                continue
+            full, verdict = m.group(1), m.group(2)
+            cases = 0
+            cm = re.search(r'VERIF-NATIVE-CASES ' + re.escape(t['name']) + r' (\d+)', so)
+            if cm:
+                cases = int(cm.group(1))
+            msg = ''
+            if verdict != 'ok':
+                sm = re.search(r'---- ' + re.escape(full) + r' stdout ----\n(.*?)(?=\n---- |\nfailures:|\Z)', so, flags=re.S)
+                msg = (sm.group(1) if sm else so[-1500:])[:3000]
+            out[t['name']] = dict(status='discharged' if verdict == 'ok' else 'refuted', message=msg, cases=cases, time_s=round(wall, 1), cmd=' '.join(cmd), test=full)
+    return out
+
+
+
 def load_known():
     p = os.path.join(ROOT, 'known_findings.json')
     if not os.path.exists(p):
@@ -475,9 +530,11 @@ def main():
     tiers = ('quick',) if a.tier == 'quick' else ('quick', 'thorough')
     harnesses = [h for h in registry.KANI if prop in h['props'] and h['props'][prop] in tiers]
     units = [u for u in registry.VERUS if prop in u['props'] and u['props'][prop] in tiers]
+    natives = [t for t in registry.NATIVE if prop in t['props'] and t['props'][prop] in tiers]
     if a.only:
         harnesses = [h for h in harnesses if re.search(a.only, h['name'])]
         units = [u for u in units if re.search(a.only, u['name'])]
+        natives = [t for t in natives if re.search(a.only, t['name'])]
 
     known = load_known()
     undecided, refuted, discharged = [], [], []
@@ -513,11 +570,12 @@ def main():
             if inj is None:
                 undecided.append(dict(obligation='kani:inject', reason=errmsg, engine='kani'))
             else:
-                names = [h['name'] for h in harnesses]
+                names = [harness_path(h) for h in harnesses]
                 per_to = max(h.get('timeout', 600) for h in harnesses)
                 total_to = pinfo.get('kani_total_timeout', {}).get(a.tier, 3000)
                 jobs = min(NPROC, pinfo.get('jobs', NPROC))
                 kr = kani_run(sc.repo, names, jobs, total_to, per_to)
+                log(f'  kani leg: {kr["wall_s"]:.0f}s for {len(names)} harnesses')
                 checker_cmds.append(kr['cmd'])
                 cls = classify_kani(kr['json'], kr['stdout'], names)
                 kani_results = cls
@@ -561,12 +619,38 @@ def main():
                     assumptions.append(f'kani module {rel}: {n_assume} kani::assume (input preconditions / stub postconditions), '
                                        f'{n_unsafe} unsafe, stubs: {stubs}')
 
+        # ---- native bounded stand-ins ----
+        native_results = {}
+        if natives:
+            errmsg = inject_native_modules(sc.repo, {t['file'] for t in natives})
+            if errmsg:
+                undecided.append(dict(obligation='native:inject', reason=errmsg, engine='native'))
+            else:
+                _t = time.time()
+                native_results = native_run(sc.repo, natives, pinfo.get('native_timeout', 1500))
+                log(f'  native leg: {time.time() - _t:.0f}s for {len(natives)} tests')
+                for t in natives:
+                    r = native_results.get(t['name'])
+                    oid = f"native:{t['name']}"
+                    functions_under_contract.append(dict(engine='native-bounded', file=t['file'], function=t['fn'], harness=t['name'], complete=False, bound=t['bound']))
+                    if r['status'] == 'discharged':
+                        discharged.append(dict(id=oid, engine='native', complete=False, bound=t['bound'], checks=max(1, r['cases']), covers=1,
+                                               time_s=r['time_s'], contract=t['obligation']))
+                        if r.get('cmd') and r['cmd'] not in checker_cmds:
+                            checker_cmds.append(r['cmd'])
+                    elif r['status'] == 'refuted':
+                        refuted.append(dict(obligation=oid, function=t['fn'], check=r['message'].strip().split('\n')[0][:300] if r['message'].strip() else 'native test failed',
+                                            detail=r['message'], engine='native', complete=False, harness=t['name'], file=t['file'], contract=t['obligation'],
+                                            native_test=r.get('test'), bin=t.get('bin', False)))
+                    else:
+                        undecided.append(dict(obligation=oid, reason=r['message'], engine='native'))
+
         # ---- violations: known findings, Verus/Kani triage, replay ----
         violations, known_hits = [], []
         # group refuted by obligation
         grouped = {}
         replays_done = {}
-        refuted.sort(key=lambda x: 0 if x['engine'] == 'kani' else 1)
+        refuted.sort(key=lambda x: {'kani': 0, 'native': 1}.get(x['engine'], 2))
         for x in refuted:
             grouped.setdefault(x['obligation'], []).append(x)
         for oid, items in grouped.items():
@@ -585,6 +669,10 @@ def main():
                        verifier_output=[u.get('detail', '') for u in unknown if u.get('detail')],
                        repo_tree_sha256=repo_hash, tier=a.tier)
             suffix = ' no-failing-input-found'
+            if x0['engine'] == 'native':
+                suffix = ''
+                rep['native_test'] = dict(file=x0['file'], test=x0.get('native_test'), bin=x0.get('bin', False), name=x0['harness'])
+                rep['failing_input_and_message'] = x0.get('detail', '')
             if x0['engine'] == 'kani' and not a.no_replay:
                 tests, tail = kani_playback(sc.repo, x0['harness_id'], 1800)
                 fails = [t for t in tests if t['kind'] != 'cover']
@@ -663,6 +751,7 @@ def main():
         known_findings_matched=[dict(id=k.get('id'), what=k.get('what'), obligation=x['obligation'], check=x['check']) for k, x in known_hits],
         checker_cmd=' ; '.join(checker_cmds),
         solver_time_s=round(solver_s, 2),
+        obligation_times_s={d['id']: d.get('time_s') for d in discharged if d.get('time_s') is not None},
         trusted_base=registry.TRUSTED_BASE + pinfo.get('trusted', []),
         samples=[dict(obligation=d['id'], engine=d['engine'], contract=d.get('contract', d.get('kind')), complete=d.get('complete'), bound=d.get('bound', ''))
                  for d in (discharged[:6] + discharged[-2:])] or [dict(note='no obligation discharged in this run')],
@@ -694,6 +783,9 @@ def main():
             continue
         seen.add(key)
         print(f"KNOWN-FINDING: property={prop} {k.get('what')} [{x['obligation']}]")
+    if os.environ.get('VERIF_TIMES'):
+        for d in sorted(discharged, key=lambda d: -(d.get('time_s') or 0))[:15]:
+            log(f"  time {d.get('time_s')}s {d['id']}")
     for u in undecided:
         log(f"UNDECIDED: {u.get('obligation')}: {str(u.get('reason'))[:400]}")
     log(f"{prop} tier={a.tier}: discharged {len(complete_ok)} complete units ({n_checks_complete} checks), "
@@ -719,13 +811,21 @@ def run_pairs(sc, hs):
         inj, err = inject_kani_modules(sc.repo, todo)
         if inj is None:
             return {}
-    kr = kani_run(sc.repo, [h['name'] for h in hs], min(NPROC, len(hs)), 1800, max(h.get('timeout', 900) for h in hs))
+    kr = kani_run(sc.repo, [harness_path(h) for h in hs], min(NPROC, len(hs)), 1800, max(h.get('timeout', 900) for h in hs))
     return classify_kani(kr['json'], kr['stdout'], [h['name'] for h in hs])
 
 
 def replay_file(path):
     rep = json.load(open(path))
     rh = rep.get('replay_harness')
+    if rep.get('native_test'):
+        nt = rep['native_test']
+        t = next(x for x in registry.NATIVE if x['name'] == nt['name'])
+        with Scratch('replay') as sc:
+            inject_native_modules(sc.repo, {t['file']})
+            r = native_run(sc.repo, [t], 1500)[t['name']]
+        print(json.dumps(r, indent=1))
+        return 1 if r['status'] == 'refuted' else 0
     print(json.dumps({k: rep.get(k) for k in ('property', 'obligation', 'function', 'contract', 'failed_checks', 'outcome')}, indent=1))
     if not rh:
         print('no concrete input recorded for this violation (no-failing-input-found); verifier output:')
